@@ -169,6 +169,7 @@ pub fn judge_viz(m: &dyn Model, kind: DdKind, _t: &Target, res: &CompRes, agg: &
         }
     }
     let full_squares: BTreeSet<String> = full.as_ref().map_or(BTreeSet::new(), |g| g.nodes.iter().filter(|(_, a)| a.get("shape").map_or(false, |s| s == "square")).map(|(id, _)| id.clone()).collect());
+    let full_yellow: BTreeSet<String> = full.as_ref().map_or(BTreeSet::new(), |g| g.nodes.iter().filter(|(_, a)| a.get("color").map_or(false, |s| s == "yellow")).map(|(id, _)| id.clone()).collect());
     let full_ids: BTreeSet<String> = full.as_ref().map_or(BTreeSet::new(), |g| g.nodes.iter().map(|(id, _)| id.clone()).collect());
     let full_labels: BTreeMap<String, String> = full.as_ref().map_or(BTreeMap::new(), |g| g.nodes.iter().filter(|(id, _)| id != "terminal").map(|(id, a)| (id.clone(), state_of(a.get("label").map_or("", |s| s.as_str())))).collect());
     for (bits, g) in graphs.iter() {
@@ -230,6 +231,8 @@ pub fn judge_viz(m: &dyn Model, kind: DdKind, _t: &Target, res: &CompRes, agg: &
             for (k, n) in drawn.iter() { if expected.get(k).copied().unwrap_or(0) < *n { bad("edges-differ", format!("config {:06b}: drawn edge {:?} does not correspond to an arc created through the callbacks", bits, k)); break; } }
             if full.is_some() {
                 for id in labels.keys() { if !full_ids.contains(id) { bad("node-census", format!("config {:06b}: node {} is drawn without show_deleted but not with it", bits, id)); break; } }
+                // a merged node is drawn as a yellow square and is never deleted: show_deleted = false must not hide it
+                for id in full_yellow.iter() { if !labels.contains_key(id) { bad("node-census", format!("config {:06b}: merged node {} is hidden although only deleted nodes may be", bits, id)); break; } }
                 for id in full_ids.iter() { if id != "terminal" && !labels.contains_key(id) && !full_squares.contains(id) { bad("node-census", format!("config {:06b}: node {} is hidden although it is not a deleted/merged (square) node", bits, id)); break; } }
             }
         }
